@@ -168,6 +168,7 @@ func runStoreBehaviour(w *tr.Writer, b storeBehaviour, seed int64, scratch strin
 		w.Emit(tr.Ev{"a": "harness-error", "t": b.ID, "err": err.Error()})
 		return
 	}
+	curCap := b.Cap
 	issued := make([][]string, len(b.Names))
 	oldDates := []string{}
 	w.Emit(tr.Ev{"a": "reset", "t": b.ID, "store": b.Store, "cap": b.Cap, "limit": b.MaxKB * 1024})
@@ -301,8 +302,11 @@ func runStoreBehaviour(w *tr.Writer, b storeBehaviour, seed int64, scratch strin
 			ev["r"] = errClass(rs.DoScan(context.Background()))
 			ev["olddates"] = append([]string{}, oldDates...)
 		case "reopen":
+			// op.ID carries the cap of the reopened store
+			curCap = op.ID
+			ev["cap"] = curCap
 			if b.Store == "file" {
-				st2, err := newStore(b.Store, b.Cap, b.MaxKB, dir, host)
+				st2, err := newStore(b.Store, curCap, b.MaxKB, dir, host)
 				ev["r"] = errClass(err)
 				if err == nil {
 					st = st2
